@@ -40,7 +40,7 @@ type c09Op struct {
 	Len     int    `json:"len,omitempty"`
 	Fate    int    `json:"fate,omitempty"`  // 0 arrives, 1 lost, 2 duplicated
 	Delay   int64  `json:"delay,omitempty"` // path delay (us)
-	Forge   int    `json:"forge,omitempty"` // 0 as generated, 1 re-encoded layout, 2 with overrun/padded chunks, 3 delivered twice
+	Forge   int    `json:"forge,omitempty"` // 0 as generated, 1 re-encoded layout, 2 with overrun/padded chunks, 3 delivered twice, 4 held back and delivered after the next feedback (reordered), 5 delivered twice at the same time on two RTCP readers
 	LaySeed int64  `json:"lay,omitempty"`
 }
 
@@ -86,7 +86,7 @@ func (c09) Gen(seed int64, tier string, avoid []string) *Plan {
 		}
 		ops = append(ops, o)
 		if chance(r, fbP) {
-			f := c09Op{K: "f", AtUs: at + int64(r.Intn(20000)), Forge: pick(r, 0, 0, 1, 1, 2, 3), LaySeed: r.Int63()}
+			f := c09Op{K: "f", AtUs: at + int64(r.Intn(20000)), Forge: pick(r, 0, 0, 1, 1, 2, 3, 4, 5), LaySeed: r.Int63()}
 			if avoidSet["c09-forged-overrun"] && f.Forge == 2 {
 				f.Forge = 1
 			}
@@ -115,6 +115,13 @@ type c09Sent struct {
 	arrival   time.Time
 	arrKnown  bool
 	ecn       uint8
+}
+
+type c09Enc struct {
+	recv     bool
+	arrival  time.Time
+	arrKnown bool
+	ecn      uint8
 }
 
 type c09Arrival struct {
@@ -150,6 +157,9 @@ func (c09) Run(e *Env) {
 			writers = append(writers, ic.BindLocalStream(info, interceptor.RTPWriterFunc(func(h *rtp.Header, pl []byte, _ interceptor.Attributes) (int, error) { return len(pl), nil })))
 		}
 		rtcpR = ic.BindRTCPReader(interceptor.RTCPReaderFunc(func(b []byte, a interceptor.Attributes) (int, interceptor.Attributes, error) {
+			if raw, ok := a.Get("c09raw").([]byte); ok {
+				return copy(b, raw), a, nil
+			}
 			return copy(b, rtcpIn), a, nil
 		}))
 	}
@@ -167,6 +177,7 @@ func (c09) Run(e *Env) {
 	tseq := cfg.Seq0
 	lastOrder := -1
 	buf := make([]byte, 1500)
+	var held [][]byte
 	for _, o := range ops {
 		simrt.SleepUntil(us(o.AtUs))
 		now := time.Now()
@@ -281,13 +292,30 @@ func (c09) Run(e *Env) {
 					}
 				}
 				times := 1
-				if o.Forge == 3 {
+				if o.Forge == 3 || (o.Forge == 5 && adapter != nil) {
 					times = 2
 					e.Fault("feedback_duplicated")
+				}
+				if o.Forge == 4 {
+					// the path reorders feedback: this one is overtaken by the next
+					held = append(held, raw)
+					e.Fault("feedback_reordered")
+					continue
+				}
+				if o.Forge == 5 && adapter == nil {
+					e.Fault("feedback_on_two_readers_at_once")
+					c09DeliverPair(e, cfg, rtcpR, raw, byT, byS, &lastOrder)
+					continue
 				}
 				for t := 0; t < times; t++ {
 					c09Deliver(e, cfg, adapter, rtcpR, &rtcpIn, buf, raw, now, byT, byS, &lastOrder)
 				}
+			}
+			if o.Forge != 4 {
+				for _, raw := range held {
+					c09Deliver(e, cfg, adapter, rtcpR, &rtcpIn, buf, raw, now, byT, byS, &lastOrder)
+				}
+				held = nil
 			}
 		}
 	}
@@ -303,29 +331,23 @@ func lastFed(sent []*c09Sent) int {
 }
 
 // c09Deliver hands one feedback packet to the sender side and checks what comes out.
-func c09Deliver(e *Env, cfg c09Cfg, adapter *xverif.FeedbackAdapter, rtcpR interceptor.RTCPReader, rtcpIn *[]byte, buf, raw []byte, now time.Time,
-	byT map[uint16]*c09Sent, byS map[[2]uint32]*c09Sent, lastOrder *int) {
+// c09DeclareX decodes a feedback independently: which packets it addresses and with what status.
+func c09DeclareX(e *Env, cfg c09Cfg, raw []byte, byT map[uint16]*c09Sent, byS map[[2]uint32]*c09Sent) (map[*c09Sent]c09Enc, map[uint16]bool, map[[2]uint32]bool, bool) {
 	e.Check()
-	type enc struct {
-		recv     bool
-		arrival  time.Time
-		arrKnown bool
-		ecn      uint8
-	}
 	// independent decode: what does the feedback encode, and for which numbers?
-	declared := map[*c09Sent]enc{}
+	declared := map[*c09Sent]c09Enc{}
 	inRange := map[uint16]bool{}     // TWCC numbers inside the declared range
 	inRangeS := map[[2]uint32]bool{} // (ssrc, seq) inside a declared range
 	if cfg.TWCC {
 		d, err := decodeTWCC(raw)
 		if err != nil {
 			e.Violatef("oracle", "c09:generator-wire-form", "feedback from the library's generator / forger does not decode: %v", err)
-			return
+			return nil, nil, nil, false
 		}
 		for _, st := range d.Status {
 			inRange[st.Seq] = true
 			if ps := byT[st.Seq]; ps != nil {
-				en := enc{recv: st.Received, arrKnown: true}
+				en := c09Enc{recv: st.Received, arrKnown: true}
 				if st.Received {
 					en.arrival = time.Time{}.Add(time.Duration(st.TimeUs) * time.Microsecond)
 				}
@@ -336,20 +358,34 @@ func c09Deliver(e *Env, cfg c09Cfg, adapter *xverif.FeedbackAdapter, rtcpR inter
 		d, err := decodeCCFB(raw)
 		if err != nil {
 			e.Violatef("oracle", "c09:generator-wire-form", "feedback from the library's generator does not decode: %v", err)
-			return
+			return nil, nil, nil, false
 		}
 		for _, blk := range d.Blocks {
 			for _, m := range blk.Metrics {
 				key := [2]uint32{blk.SSRC, uint32(m.Seq)}
 				inRangeS[key] = true
 				if ps := byS[key]; ps != nil {
-					declared[ps] = enc{recv: m.Received, ecn: m.ECN, arrKnown: false}
+					declared[ps] = c09Enc{recv: m.Received, ecn: m.ECN, arrKnown: false}
 				}
 			}
 		}
 	}
 	for ps, en := range declared {
 		ps.addressed, ps.arrived, ps.arrival, ps.arrKnown, ps.ecn = true, en.recv, en.arrival, en.arrKnown, en.ecn
+	}
+	return declared, inRange, inRangeS, true
+}
+
+func c09Declare(e *Env, cfg c09Cfg, raw []byte, byT map[uint16]*c09Sent, byS map[[2]uint32]*c09Sent) bool {
+	_, _, _, ok := c09DeclareX(e, cfg, raw, byT, byS)
+	return ok
+}
+
+func c09Deliver(e *Env, cfg c09Cfg, adapter *xverif.FeedbackAdapter, rtcpR interceptor.RTCPReader, rtcpIn *[]byte, buf, raw []byte, now time.Time,
+	byT map[uint16]*c09Sent, byS map[[2]uint32]*c09Sent, lastOrder *int) {
+	declared, inRange, inRangeS, ok := c09DeclareX(e, cfg, raw, byT, byS)
+	if !ok {
+		return
 	}
 	if adapter != nil {
 		pkts, err := rtcp.Unmarshal(raw)
@@ -418,6 +454,51 @@ func c09Deliver(e *Env, cfg c09Cfg, adapter *xverif.FeedbackAdapter, rtcpR inter
 		return
 	}
 	rep, _ := attr.Get(rtpfb.CCFBAttributesKey).(rtpfb.Report)
+	c09CheckReport(e, cfg, rep, byS, lastOrder)
+}
+
+// c09DeliverPair hands the same feedback to two RTCP readers of the rtpfb interceptor at the same instant
+// (RTCP readers of different streams run on different goroutines) and checks both reports.
+func c09DeliverPair(e *Env, cfg c09Cfg, rtcpR interceptor.RTCPReader, raw []byte, byT map[uint16]*c09Sent, byS map[[2]uint32]*c09Sent, lastOrder *int) {
+	if !c09Declare(e, cfg, raw, byT, byS) {
+		return
+	}
+	var reps [2]rtpfb.Report
+	var errs [2]error
+	var gs []*simrt.G
+	for k := 0; k < 2; k++ {
+		gs = append(gs, e.Go(fmt.Sprintf("rtcp-reader%d", k), func() {
+			attrs := interceptor.Attributes{}
+			attrs.Set("c09raw", raw)
+			_, attr, err := rtcpR.Read(make([]byte, 1500), attrs)
+			errs[k] = err
+			if err == nil {
+				reps[k], _ = attr.Get(rtpfb.CCFBAttributesKey).(rtpfb.Report)
+			}
+		}))
+	}
+	e.Wait(gs...)
+	// which reader built its report first is not observable: the send-order rule is applied to the reports
+	// in the order that satisfies it, if there is one
+	first, second := 0, 1
+	if len(reps[0].PacketReports) > 0 && len(reps[1].PacketReports) > 0 {
+		a := byS[[2]uint32{reps[0].PacketReports[0].SSRC, uint32(reps[0].PacketReports[0].RTPSequenceNumber)}]
+		b := byS[[2]uint32{reps[1].PacketReports[0].SSRC, uint32(reps[1].PacketReports[0].RTPSequenceNumber)}]
+		if a != nil && b != nil && b.order < a.order {
+			first, second = 1, 0
+		}
+	}
+	for _, k := range []int{first, second} {
+		if errs[k] != nil {
+			e.Violatef("oracle", "c09:rtpfb:read-error", "%v", errs[k])
+			continue
+		}
+		c09CheckReport(e, cfg, reps[k], byS, lastOrder)
+	}
+}
+
+// c09CheckReport checks one rtpfb report against what the feedback so far has declared.
+func c09CheckReport(e *Env, cfg c09Cfg, rep rtpfb.Report, byS map[[2]uint32]*c09Sent, lastOrder *int) {
 	for _, pr := range rep.PacketReports {
 		ps := byS[[2]uint32{pr.SSRC, uint32(pr.RTPSequenceNumber)}]
 		if ps == nil {
